@@ -161,8 +161,11 @@ class InversePowerPotential(StandardVelocityInvertiblePotential):
         if potential_change < maximum_potential - current_potential:
             norm_sq_of_new_separation_vector = (
                     (charge_product * self._prefactor / (current_potential + potential_change)) ** self._two_over_power)
+            # The active unit cannot climb the hill: the new separation cannot be shorter than the one at the maximum
+            # (rounding for potential changes within the resolution of the potential difference).
             return vectors.displacement_until_new_norm_sq_component_positive(
-                separation, norm_sq_of_new_separation_vector, direction)
+                separation, max(norm_sq_of_new_separation_vector, (1.0 + 2.0 ** -50) * vectors.norm_sq(
+                    vectors.copy_vector_with_replaced_component(separation, direction, 0.0))), direction)
         return self._infinity
 
     def _displacement_attractive(self, direction: int, charge_product: float, potential_change: float,
@@ -179,6 +182,8 @@ class InversePowerPotential(StandardVelocityInvertiblePotential):
             return self._infinity
         norm_sq_of_new_separation_vector = (
                 (charge_product * self._prefactor / (current_potential + potential_change)) ** self._two_over_power)
+        # The active unit travels uphill away from the target unit: the new separation cannot be shorter than the current
+        # one (rounding for potential changes below the resolution of the current potential).
         current_displacement += vectors.displacement_until_new_norm_sq_component_negative(
-            separation, norm_sq_of_new_separation_vector, direction)
+            separation, max(norm_sq_of_new_separation_vector, (1.0 + 2.0 ** -50) * vectors.norm_sq(separation)), direction)
         return current_displacement
